@@ -316,12 +316,21 @@ structure SetDone (s s' : State) (b : Nat) (x x' : Buf) (sz n p k m : Nat) (S : 
   used : x'.used = if fatal then (p + m) * sz else (max n (p + k)) * sz
   next : s'.next = s.next + ((p - n) + m)
   log : ∃ cre, Creates S s.next cre ((p - n) + m) ∧
-    s'.log = s.log ++ (slotsFrom x.data sz p (min n (p + k) - p)).map Ev.fini ++ cre ++
-      (if fatal then (slotsFrom x.data sz (p + k) (n - (p + k))).map Ev.fini else [])
+    s'.log = s.log ++ cre ++ (if fatal then (slotsFrom x.data sz (p + k) (n - (p + k))).map Ev.fini else []) ++
+      (slotsFrom x.data sz p (min n (p + k) - p)).map Ev.fini
   low : ∀ j, j < min n p → slot x'.data sz j = slot x.data sz j
   gap : s'.next ≤ tokLimit → ∀ j, n ≤ j → j < p → slot x'.data sz j = s.next + (j - n)
   new : s'.next ≤ tokLimit → ∀ j, p ≤ j → j < p + m → slot x'.data sz j = s.next + (p - n) + (j - p)
   high : fatal = false → ∀ j, p + k ≤ j → slot x'.data sz j = slot x.data sz j
+
+theorem Frame.withLog {s s' : State} {b : Nat} (f : Frame s s' b) (l : List Ev) : Frame s { s' with log := l } b :=
+  ⟨f.hs, f.wins, f.len, f.other⟩
+
+theorem savedToks_eq (d : List Byte) (sz p n : Nat) : savedToks d (p * sz) sz n = slotsFrom d sz p n := by
+  unfold savedToks slotsFrom slot
+  apply List.map_congr_left
+  intro i _
+  rw [Nat.add_mul]
 
 theorem bufferSet_managed {s : State} {b : Nat} {x : Buf} {t : Traits} (hb : s.buf? b = some x) (xt : x.traits = some t)
     (mt : Managed t) {n : Nat} (hu : x.used = n * t.size) (hsz : x.used ≤ x.size) (pos : Nat) (bytes : List Byte)
@@ -372,15 +381,15 @@ theorem bufferSet_managed {s : State} {b : Nat} {x : Buf} {t : Traits} (hb : s.b
         iters_aligned p (p + k) t.size sz0]
       have pk : p + k - p = k := by omega
       rw [pk]
-      -- step 1: destroy the overwritten elements
-      have f1fit : (p + (min n (p + k) - p)) * t.size ≤ x.size := by
-        have : (p + (min n (p + k) - p)) * t.size ≤ (p + k) * t.size := Nat.mul_le_mul_right _ (by omega)
-        omega
-      obtain ⟨s1, d1, hf1, ob1, l1, hb1, dl1, same1⟩ := finiLoop_slots (min n (p + k) - p) s b p t.size x hb h4 f1fit
-      rw [hf1]
-      simp only
+      -- step 1: the elements that get replaced are saved aside (destroyed at the end)
+      rw [savedToks_eq]
+      have step1 : ∃ s1 d1, s = s1 ∧ OnlyBuf s s1 b ∧ s1.log = s.log ∧ s1.buf? b = some { x with data := d1 } ∧
+          d1.length = x.data.length ∧ (∀ j, j < p ∨ p + (min n (p + k) - p) ≤ j → slot d1 t.size j = slot x.data t.size j) :=
+        ⟨s, x.data, rfl, OnlyBuf.refl s b, rfl, hb, rfl, fun _ _ => rfl⟩
+      obtain ⟨s1, d1, es1, ob1, l1, hb1, dl1, same1⟩ := step1
+      subst es1
       rw [setGapLoop_eq]
-      have fr1 : Frame s s1 b := ⟨ob1.hs, ob1.wins, ob1.len, ob1.other⟩
+      have fr1 : Frame s s b := ⟨ob1.hs, ob1.wins, ob1.len, ob1.other⟩
       -- step 2: the gap
       have gfit : (n + (p - n)) * t.size ≤ ({ x with data := d1 } : Buf).size := by
         simp only [Buf.size, dl1]
@@ -390,7 +399,7 @@ theorem bufferSet_managed {s : State} {b : Nat} {x : Buf} {t : Traits} (hb : s.b
           · rw [Nat.max_eq_right h]; simpa [Buf.size] using qfit
           · rw [Nat.max_eq_left h]; exact nsz
         omega
-      obtain ⟨s2, d2, mg, mgle, bt, alt⟩ := genInit_spec (gapFail b) doneUnit (p - n) s1 b n t.size _ hb1 h4 gfit
+      obtain ⟨s2, d2, mg, mgle, bt, alt⟩ := genInit_spec (gapFail b) doneUnit (p - n) s b n t.size _ hb1 h4 gfit
       have blt2 : b < s2.bufs.length := by rw [bt.frame.len, ob1.len]; exact blt
       -- when there is a gap nothing was destroyed in step 1
       have nofini : n < p → min n (p + k) - p = 0 := by intro h; omega
@@ -413,8 +422,9 @@ theorem bufferSet_managed {s : State} {b : Nat} {x : Buf} {t : Traits} (hb : s.b
           rw [bt.out j (by rw [me]; omega)]
           exact same1 j (by omega)
         rcases alt3 with ⟨me3, hb3, hi3, evs, les, crs⟩ | ⟨ml3, hb3, evs, crs, les⟩
-        · refine Or.inr (Or.inl ⟨p, k, m, false, s3, _, cnt, rfl, ek, qfit, rfl,
-            ⟨(fr1.trans bt.frame).trans fr3, hb3, rfl, rfl, rfl, by rw [dl3, bt.len]; exact dl1, mle, (by intro h; cases h), fun _ => me3,
+        · refine Or.inr (Or.inl ⟨p, k, m, false, { s3 with log := s3.log ++ (slotsFrom x.data t.size p (min n (p + k) - p)).map Ev.fini },
+            _, cnt, rfl, ek, qfit, rfl,
+            ⟨((fr1.trans bt.frame).trans fr3).withLog _, hb3, rfl, rfl, rfl, by rw [dl3, bt.len]; exact dl1, mle, (by intro h; cases h), fun _ => me3,
              ?_, by rw [n3, n2]; omega, ?_, ?_, ?_, ?_, ?_⟩⟩)
           · simp only [Bool.false_eq_true, if_false]
             rcases Nat.le_total (n * t.size) ((p + k) * t.size) with h | h
@@ -425,30 +435,35 @@ theorem bufferSet_managed {s : State} {b : Nat} {x : Buf} {t : Traits} (hb : s.b
           · refine ⟨evg ++ evs, ?_, ?_⟩
             · have := Creates.append crg' (by rw [← n2]; exact crs)
               exact this
-            · rw [les, leg, l1]; simp
+            · show s3.log ++ _ = _
+              rw [les, leg, l1]; simp
           · intro j hj
             show slot d3 t.size j = _
             rw [lo3 j (by omega)]
             exact slot2 j (by omega) (by omega)
           · intro small j h1 h2
+            have small : s3.next ≤ tokLimit := small
             show slot d3 t.size j = _
             rw [lo3 j h2]
             show slot d2 t.size j = _
             rw [bt.inn (by omega) j h1 (by omega), ob1.next]
           · intro small j h1 h2
+            have small : s3.next ≤ tokLimit := small
             show slot d3 t.size j = _
             rw [inn3 small j h1 h2, n2]
           · intro _ j hj
             show slot d3 t.size j = _
             rw [hi3 j hj]
             exact slot2 j (by omega) (by omega)
-        · refine Or.inr (Or.inl ⟨p, k, m, true, s3, _, cnt, rfl, ek, qfit, rfl,
-            ⟨(fr1.trans bt.frame).trans fr3, hb3, rfl, rfl, rfl, by rw [dl3, bt.len]; exact dl1, mle, fun _ => ml3, (by intro h; cases h),
+        · refine Or.inr (Or.inl ⟨p, k, m, true, { s3 with log := s3.log ++ (slotsFrom x.data t.size p (min n (p + k) - p)).map Ev.fini },
+            _, cnt, rfl, ek, qfit, rfl,
+            ⟨((fr1.trans bt.frame).trans fr3).withLog _, hb3, rfl, rfl, rfl, by rw [dl3, bt.len]; exact dl1, mle, fun _ => ml3, (by intro h; cases h),
              (by simp), (by rw [n3, n2]; omega), ?_, ?_, ?_, ?_, (by intro h; cases h)⟩⟩)
           · refine ⟨evg ++ evs, ?_, ?_⟩
             · have := Creates.append crg' (by rw [← n2]; exact crs)
               exact this
-            · rw [les, leg, l1]
+            · show s3.log ++ _ = _
+              rw [les, leg, l1]
               have : slotsFrom d2 t.size (p + k) (n - (p + k)) = slotsFrom x.data t.size (p + k) (n - (p + k)) :=
                 slotsFrom_congr (fun j h1 h2 => slot2 j (by omega) (by omega))
               simp only [if_true]
@@ -458,11 +473,13 @@ theorem bufferSet_managed {s : State} {b : Nat} {x : Buf} {t : Traits} (hb : s.b
             rw [lo3 j (by omega)]
             exact slot2 j (by omega) (by omega)
           · intro small j h1 h2
+            have small : s3.next ≤ tokLimit := small
             show slot d3 t.size j = _
             rw [lo3 j h2]
             show slot d2 t.size j = _
             rw [bt.inn (by omega) j h1 (by omega), ob1.next]
           · intro small j h1 h2
+            have small : s3.next ≤ tokLimit := small
             show slot d3 t.size j = _
             rw [inn3 small j h1 h2, n2]
       · -- gap constructor refused
@@ -479,7 +496,7 @@ theorem bufferSet_managed {s : State} {b : Nat} {x : Buf} {t : Traits} (hb : s.b
         · rw [State.buf?_setBuf _ _ _ _ blt2]; simp
         · obtain ⟨evg, leg, crg⟩ := bt.log
           refine ⟨evg, ?_, ?_⟩
-          · show s2.log = _; rw [leg, l1, z]; simp [slotsFrom]
+          · show s2.log = _; rw [leg, l1]
           · rw [ob1.next] at crg; exact crg.mono (fun k hk => by cases hk)
         · intro j hj
           show slot d2 t.size j = _
